@@ -150,7 +150,7 @@ class Gen:
         if x < 0.50:
             return "%d X %d" % (self.k, r.randrange(2))
         if x < 0.60:
-            return "%d U %d" % (self.k, r.randrange(1, 1000))
+            return "%d U %d" % (self.k, r.choice([0, r.randrange(1, 1000), r.randrange(1, 1000)]))
         if x < 0.90:
             return "%d R %d %d" % (self.k, r.randrange(FIELDS), r.choice([0, 1, 1, 2, 3]))
         if x < 0.97:
@@ -169,7 +169,8 @@ class Gen:
             for f in range(FIELDS):
                 if r.random() < 0.7:
                     lines.append("%d R %d %d" % (k, f, r.randrange(1, 4)))
-        lines.append("%d U %d" % (k, r.randrange(1, 1000)))
+        if r.random() < 0.75:          # otherwise user_data stays NULL
+            lines.append("%d U %d" % (k, r.choice([0, r.randrange(1, 1000), r.randrange(1, 1000)])))
         if permissive is None:
             permissive = r.random() < 0.6
         if permissive:
